@@ -5,7 +5,7 @@ from typing import Dict, List, Optional, Set, Tuple
 
 from ..model import Repo, ClassInfo, FunctionInfo, AnalysisError, walk_no_nested, src, is_self_attr, call_name, dotted, \
     enclosing_stmt, parent, const_str
-from ..core import Ob, Rule, Mutant, mutate_module, find_def, replace_node
+from ..core import Ob, Rule, Mutant, mutate_module, find_def, replace_node, inconclusive
 from ..dataflow import Defs
 from ..ratfun import Normalizer, RF, Poly
 from ..astq import flatten, norm, return_exprs
@@ -42,13 +42,34 @@ def _field_normalizer(fn: FunctionInfo, defs: Defs) -> Normalizer:
 
     def name_cb(name):
         if name in defs.defs and name not in defs.params and name not in stack:
-            vals = [v for v in defs.defs[name] if isinstance(v, ast.expr)]
-            if len(vals) == 1:
+            allvals = defs.defs[name]
+            vals = [v for v in allvals if isinstance(v, ast.expr)]
+            if len(vals) == 1 and len(allvals) == 1:
                 stack.append(name)
                 try:
                     return nz(vals[0])
                 finally:
                     stack.pop()
+            # a, b = [f(p) for p in (self.x, self.y)]   /   a, b = (f(self.x), f(self.y)) handled by Defs
+            if len(allvals) == 1 and type(allvals[0]).__name__ == "_Elem":
+                el = allvals[0]
+                comp = el.expr
+                if isinstance(comp, (ast.ListComp, ast.GeneratorExp)) and len(comp.generators) == 1 and not comp.generators[0].ifs \
+                        and isinstance(comp.generators[0].iter, (ast.Tuple, ast.List)) and isinstance(comp.generators[0].target, ast.Name) \
+                        and el.index < len(comp.generators[0].iter.elts):
+                    tv = comp.generators[0].target.id
+                    item = comp.generators[0].iter.elts[el.index]
+                    saved = nz.subst.get(tv)
+                    stack.append(name)
+                    try:
+                        nz.subst[tv] = nz(item)
+                        return nz(comp.elt)
+                    finally:
+                        stack.pop()
+                        if saved is None:
+                            nz.subst.pop(tv, None)
+                        else:
+                            nz.subst[tv] = saved
         return None
 
     def attr_cb(a):
@@ -85,19 +106,43 @@ def rule_samplers(repo: Repo) -> List[Ob]:
         obj, shapes, loc, scale, mult = SAMPLER_CONTRACT[cls.name]
         defs = Defs(m.node, m.params()[0])
         nz = _field_normalizer(m, defs)
+        # a sampler must not keep state on the distribution object (parameters may depend on the program state)
+        selfn_ = m.params()[0]
+        stores = [n for n in walk_no_nested(m.node) if isinstance(n, (ast.Assign, ast.AugAssign)) and
+                  any(is_self_attr(t, None, selfn_) for t in (n.targets if isinstance(n, ast.Assign) else [n.target]))]
+        if stores:
+            obs.append(Ob("F-sampler", key + "::stateless", cls.relpath, stores[0].lineno, m.qualname, False,
+                          f"`{src(stores[0])[:60]}`: {cls.name}.sample stores on the distribution object; a later draw with other (state-dependent) parameters reuses it"))
+            continue
         calls = [c for c in walk_no_nested(m.node) if isinstance(c, ast.Call) and call_name(c) == "rvs"]
         if len(calls) != 1:
-            obs.append(Ob("F-sampler", key + "::rvs", cls.relpath, m.node.lineno, m.qualname, False,
-                          f"expected exactly one scipy `.rvs(` call in {cls.name}.sample, found {len(calls)}"))
+            obs.append(inconclusive("F-sampler", key + "::rvs", cls.relpath, m.node.lineno, m.qualname,
+                                    f"{len(calls)} scipy `.rvs(` calls in {cls.name}.sample (sampler delegated or restructured)"))
             continue
         call = calls[0]
         callee = dotted(call.func) or ""
         got_obj = callee.split(".")[-2] if "." in callee else ""
         imp = cls.module.imports.get(got_obj)
-        if got_obj != obj or not imp or not imp[0].startswith("scipy"):
-            obs.append(Ob("F-sampler", key + "::callee", cls.relpath, call.lineno, m.qualname, False,
-                          f"{cls.name}.sample draws from `{callee}`, the moment side is a {obj} law"))
+        frozen = None
+        if (not imp) and isinstance(call.func, ast.Attribute) and isinstance(call.func.value, ast.Name):
+            # rv = norm(loc=.., scale=..); rv.rvs()
+            fv = [v for v in defs.defs.get(call.func.value.id, []) if isinstance(v, ast.Call)]
+            if len(fv) == 1 and isinstance(fv[0].func, ast.Name) and cls.module.imports.get(fv[0].func.id, ("", ""))[0].startswith("scipy"):
+                frozen = fv[0]
+                got_obj = fv[0].func.id
+                imp = cls.module.imports.get(got_obj)
+        if not imp or not imp[0].startswith("scipy"):
+            obs.append(inconclusive("F-sampler", key + "::callee", cls.relpath, call.lineno, m.qualname, f"`{callee}` is not a scipy.stats object imported in this module"))
             continue
+        if got_obj != obj:
+            obs.append(Ob("F-sampler", key + "::callee", cls.relpath, call.lineno, m.qualname, False,
+                          f"{cls.name}.sample draws from scipy.stats.{got_obj}, the moment side is a {obj} law"))
+            continue
+        if frozen is not None:
+            call = ast.Call(func=frozen.func, args=frozen.args, keywords=frozen.keywords)
+            call.lineno = frozen.lineno
+            for ch in ast.iter_child_nodes(call):
+                pass
         nshape = SCIPY_SHAPES[obj]
         pos = list(call.args)
         kws = {k.arg: k.value for k in call.keywords if k.arg}
@@ -117,16 +162,23 @@ def rule_samplers(repo: Repo) -> List[Ob]:
                     cells.append((f"shape{i}", nz(got_shapes[i]), _contract_rf(want)))
             # effective loc/scale: an outer `X * call` / `call * X` multiplies both
             outer = RF(Poly.const(1))
-            p = parent(call)
+            p = parent(calls[0])
             if isinstance(p, ast.BinOp) and isinstance(p.op, ast.Mult):
-                other = p.right if p.left is call else p.left
+                other = p.right if p.left is calls[0] else p.left
                 outer = nz(other)
             g_loc = nz(kws["loc"]) if "loc" in kws else RF(Poly.const(0))
             g_scale = nz(kws["scale"]) if "scale" in kws else RF(Poly.const(1))
             cells.append(("loc", g_loc * outer, _contract_rf(loc)))
             cells.append(("scale", g_scale * outer, _contract_rf(scale)))
         except AnalysisError as e:
-            raise AnalysisError(f"{m.key}: {e}")
+            obs.append(inconclusive("F-sampler", key + "::args", cls.relpath, calls[0].lineno, m.qualname, f"sampler arguments not normalisable ({e})"))
+            continue
+        # an argument that still mentions a plain local (not resolved to a parameter field) cannot be judged
+        unresolved = [n_ for n_, got, want in cells if got is not None and any(not a.startswith(("$", "sqrt[", "pi")) and not a.replace(".", "").isdigit()
+                                                                            for mono in list(got.n.t) + list(got.d.t) for a, _ in mono)]
+        if unresolved:
+            obs.append(inconclusive("F-sampler", key + "::args", cls.relpath, calls[0].lineno, m.qualname, f"arguments {unresolved} mention locals that could not be traced to parameter fields"))
+            continue
         for name, got, want in cells:
             ok = got is not None and got.equiv(want)
             obs.append(Ob("F-sampler", f"{key}::{name}", cls.relpath, call.lineno, m.qualname, ok,
@@ -244,7 +296,18 @@ def _range_len_of(e, defs: Defs, field: str, selfn: str) -> bool:
 
 
 def rule_enumeration(repo: Repo) -> List[Ob]:
+    """Discrete supports, samplers and moment sums enumerate the same values.  Each obligation is
+    BAD only on positive evidence (an offset in a range/enumerate, swapped population/weights, a
+    de-duplicating container, an exclusive upper bound); unrecognised shapes are inconclusive."""
     obs = []
+    R = "F-enumeration"
+
+    def emit(key, rp, line, qn, verdict, msg):
+        if verdict is None:
+            obs.append(inconclusive(R, key, rp, line, qn, msg))
+        else:
+            obs.append(Ob(R, key, rp, line, qn, verdict, msg))
+
     # --- Categorical: values are the positions 0..len-1 in support, sampler and moment
     cat = repo.cls("Categorical", "program/distribution/categorical.py")
     f = "probabilities"
@@ -255,120 +318,108 @@ def rule_enumeration(repo: Repo) -> List[Ob]:
         selfn = m.params()[0]
         defs = Defs(m.node, selfn)
         key = f"{cat.relpath}::Categorical.{mname}::enumeration"
-        if mname == "get_support":
-            ok = any(_range_len_of(c, defs, f, selfn) for c in ast.walk(m.node) if isinstance(c, ast.Call))
-            msg = "support is range(len(probabilities)) = {0..len-1}"
-        elif mname == "sample":
-            ch = [c for c in walk_no_nested(m.node) if isinstance(c, ast.Call) and call_name(c) == "choices"]
-            ok = False
-            msg = "no random.choices call"
-            if len(ch) == 1 and ch[0].args:
-                c = ch[0]
-                kw = {k.arg: k.value for k in c.keywords}
-                w = kw.get("weights", c.args[1] if len(c.args) > 1 else None)
-                ok = _range_len_of(c.args[0], defs, f, selfn) and w is not None and f"{selfn}.{f}" in defs.roots(w) \
-                    and isinstance(parent(c), ast.Subscript)
-                kk = kw.get("k")
-                ok = ok and (kk is None or (isinstance(kk, ast.Constant) and kk.value == 1))
-                msg = "sampler draws an index of range(len(probabilities)) weighted by probabilities"
+        ranges = [c for c in walk_no_nested(m.node) if isinstance(c, ast.Call) and isinstance(c.func, ast.Name) and c.func.id == "range"]
+        enums = [c for c in walk_no_nested(m.node) if isinstance(c, ast.Call) and isinstance(c.func, ast.Name) and c.func.id == "enumerate"]
+        verdict, msg = None, "enumeration of the category positions not recognised"
+        if mname in ("get_support", "sample"):
+            if mname == "sample":
+                ch = [c for c in walk_no_nested(m.node) if isinstance(c, ast.Call) and call_name(c) == "choices"]
+                if len(ch) == 1 and ch[0].args:
+                    c = ch[0]
+                    kw = {k.arg: k.value for k in c.keywords}
+                    w = kw.get("weights", c.args[1] if len(c.args) > 1 else None)
+                    popu = c.args[0]
+                    if isinstance(popu, ast.Call) and isinstance(popu.func, ast.Name) and popu.func.id == "range":
+                        if len(popu.args) != 1:
+                            verdict, msg = False, f"`{src(popu)}`: sampled categories do not start at 0 while the moment side uses positions 0..len-1"
+                        elif _range_len_of(popu, defs, f, selfn) and w is not None and f"{selfn}.{f}" in defs.roots(w):
+                            kk = kw.get("k")
+                            if kk is not None and not (isinstance(kk, ast.Constant) and kk.value == 1):
+                                verdict, msg = None, "k != 1"
+                            else:
+                                verdict, msg = True, "sampler draws a position of range(len(probabilities)) weighted by probabilities"
+                    if w is not None and verdict is not False and f"{selfn}.{f}" not in defs.roots(w) and "weights" in kw:
+                        verdict, msg = False, f"sampler weights `{src(w)}` do not derive from the probabilities"
+            else:
+                for r in ranges:
+                    if len(r.args) != 1:
+                        verdict, msg = False, f"`{src(r)}`: support does not start at 0 while moments and sampler use positions 0..len-1"
+                    elif _range_len_of(r, defs, f, selfn) and verdict is not False:
+                        verdict, msg = True, "support is range(len(probabilities)) = {0..len-1}"
         else:
-            ok = False
-            msg = "moment is not sum_i i**k * probabilities[i]"
-            for loop in [n for n in walk_no_nested(m.node) if isinstance(n, ast.For)]:
-                it = loop.iter
-                if isinstance(it, ast.Call) and call_name(it) == "enumerate" and len(it.args) == 1 and not it.keywords \
-                        and is_self_attr(it.args[0], f, selfn) and isinstance(loop.target, ast.Tuple) and len(loop.target.elts) == 2:
-                    iv, pv = [t.id for t in loop.target.elts if isinstance(t, ast.Name)][:2]
-                    for n in ast.walk(loop):
-                        if isinstance(n, ast.AugAssign) and isinstance(n.op, ast.Add):
-                            fs = flatten(n.value, ast.Mult)
-                            has_p = any(isinstance(x, ast.Name) and x.id == pv for x in fs)
-                            has_pow = any(isinstance(x, ast.BinOp) and isinstance(x.op, ast.Pow) and isinstance(x.left, ast.Name)
-                                          and x.left.id == iv and isinstance(x.right, ast.Name) and x.right.id == m.params()[1] for x in fs)
-                            if has_p and has_pow and len(fs) == 2:
-                                ok = True
-                                msg = "moment is sum_i i**k * probabilities[i] (positions from enumerate, start 0)"
-        obs.append(Ob("F-enumeration", key, cat.relpath, m.node.lineno, m.qualname, ok, msg))
-    # --- DiscreteUniform: values list = inclusive integer range, used by support, sampler, moment
+            k = m.params()[1]
+            for e in enums:
+                if len(e.args) != 1 or e.keywords:
+                    verdict, msg = False, f"`{src(e)}`: category positions in the moment sum do not start at 0"
+                elif is_self_attr(e.args[0], f, selfn) and verdict is not False:
+                    verdict, msg = True, "moment is sum_i i**k * probabilities[i] (positions from enumerate, start 0)"
+        emit(key, cat.relpath, m.node.lineno, m.qualname, verdict, msg)
+    # --- DiscreteUniform: values list = inclusive integer range
     du = repo.cls("DiscreteUniform", "program/distribution/discrete_uniform.py")
     sp = du.methods.get("set_parameters")
     if sp is None:
         raise AnalysisError("DiscreteUniform.set_parameters missing")
-    ok = False
+    verdict, msg = None, "construction of the value list not recognised"
+    pnm = sp.params()[1]
+    sdefs = Defs(sp.node, sp.params()[0])
     for c in ast.walk(sp.node):
-        if isinstance(c, ast.Call) and call_name(c) == "range" and len(c.args) == 2:
-            hi = c.args[1]
-            p = sp.params()[1]
+        if isinstance(c, ast.Call) and isinstance(c.func, ast.Name) and c.func.id == "range" and len(c.args) == 2:
+            def resolve(e):
+                # low, high = parameters ; int(low) ...
+                class T(ast.NodeTransformer):
+                    def visit_Name(self, n):
+                        vals = sdefs.defs.get(n.id, [])
+                        if len(vals) == 1 and type(vals[0]).__name__ == "_Elem" and isinstance(vals[0].expr, ast.Name) and vals[0].expr.id == pnm:
+                            return ast.Subscript(value=ast.Name(id=pnm, ctx=ast.Load()), slice=ast.Constant(value=vals[0].index), ctx=ast.Load())
+                        return n
+                import copy as _c
+                return T().visit(_c.deepcopy(e))
             nz = Normalizer(attr_cb=lambda a: None)
             try:
-                lo_ok = nz(c.args[0]).equiv(nz(ast.parse(f"{p}[0]").body[0].value))
-                hi_ok = nz(hi).equiv(nz(ast.parse(f"{p}[1] + 1").body[0].value))
-                ok = lo_ok and hi_ok
+                lo, hi = nz(resolve(c.args[0])), nz(resolve(c.args[1]))
+                p0, p1 = nz(ast.parse(f"{pnm}[0]").body[0].value), nz(ast.parse(f"{pnm}[1]").body[0].value)
+                one = RF(Poly.const(1))
+                if lo.equiv(p0) and hi.equiv(p1 + one):
+                    verdict, msg = True, "values = range(lower, upper + 1) (both bounds included)"
+                elif lo.equiv(p0) and hi.equiv(p1):
+                    verdict, msg = False, f"`{src(c)}` excludes the upper bound: DiscreteUniform(a, b) is documented and analysed as uniform on a..b inclusive"
+                elif hi.equiv(p1 + one) and not lo.equiv(p0):
+                    verdict, msg = False, f"`{src(c)}` does not start at the lower bound"
             except AnalysisError:
-                ok = False
-    obs.append(Ob("F-enumeration", f"{du.relpath}::DiscreteUniform.set_parameters::inclusive-range", du.relpath, sp.node.lineno, sp.qualname, ok,
-                  "values = range(lower, upper + 1) (both bounds included)" if ok else "value list is not range(parameters[0], parameters[1] + 1)"))
+                pass
+    emit(f"{du.relpath}::DiscreteUniform.set_parameters::inclusive-range", du.relpath, sp.node.lineno, sp.qualname, verdict, msg)
     for mname in ("get_support", "sample", "get_moment"):
         m = du.methods.get(mname)
         if m is None:
             raise AnalysisError(f"DiscreteUniform.{mname} missing")
         selfn = m.params()[0]
-        defs = Defs(m.node, selfn)
         key = f"{du.relpath}::DiscreteUniform.{mname}::enumeration"
-        if mname == "get_support":
-            rs = return_exprs(m.node)
-            ok = len(rs) == 1 and isinstance(rs[0], ast.Call) and call_name(rs[0]) in ("set", "frozenset") and is_self_attr(rs[0].args[0], "values", selfn)
-            msg = "support is set(values)"
-        elif mname == "sample":
-            ch = [c for c in walk_no_nested(m.node) if isinstance(c, ast.Call) and call_name(c) == "choice"]
-            ok = len(ch) == 1 and len(ch[0].args) == 1 and is_self_attr(ch[0].args[0], "values", selfn)
-            msg = "sampler is random.choice(values) (uniform over the same list)"
+        reads_values = any(is_self_attr(x, "values", selfn) for x in ast.walk(m.node))
+        sliced = [x for x in ast.walk(m.node) if isinstance(x, ast.Subscript) and is_self_attr(x.value, "values", selfn) and isinstance(x.slice, ast.Slice)]
+        if sliced:
+            emit(key, du.relpath, sliced[0].lineno, m.qualname, False, f"`{src(sliced[0])}`: only part of the value list is used")
+        elif reads_values:
+            emit(key, du.relpath, m.node.lineno, m.qualname, True, f"{mname} ranges over the whole value list")
         else:
-            ok = False
-            msg = "moment is not sum_v v**k / len(values)"
-            k = m.params()[1]
-            for loop in [n for n in walk_no_nested(m.node) if isinstance(n, ast.For)]:
-                if is_self_attr(loop.iter, "values", selfn) and isinstance(loop.target, ast.Name):
-                    v = loop.target.id
-                    for n in ast.walk(loop):
-                        if isinstance(n, ast.AugAssign) and isinstance(n.op, ast.Add):
-                            fs = flatten(n.value, ast.Mult)
-                            has_pow = any(isinstance(x, ast.BinOp) and isinstance(x.op, ast.Pow) and isinstance(x.left, ast.Name)
-                                          and x.left.id == v and isinstance(x.right, ast.Name) and x.right.id == k for x in fs)
-                            others = [x for x in fs if not (isinstance(x, ast.BinOp) and isinstance(x.op, ast.Pow))]
-                            w_ok = False
-                            if len(others) == 1:
-                                r = defs.roots(others[0])
-                                # weight 1/len(values)
-                                for d in defs.defs.get(others[0].id, []) if isinstance(others[0], ast.Name) else [others[0]]:
-                                    if isinstance(d, ast.Call) and call_name(d) == "Rational" and len(d.args) == 2 \
-                                            and isinstance(d.args[0], ast.Constant) and d.args[0].value == 1 \
-                                            and isinstance(d.args[1], ast.Call) and call_name(d.args[1]) == "len" and is_self_attr(d.args[1].args[0], "values", selfn):
-                                        w_ok = True
-                                    if isinstance(d, ast.BinOp) and isinstance(d.op, ast.Div) and isinstance(d.left, ast.Constant) and d.left.value == 1 \
-                                            and isinstance(d.right, ast.Call) and call_name(d.right) == "len":
-                                        w_ok = True
-                            if has_pow and w_ok:
-                                ok = True
-                                msg = "moment is sum over values of v**k / len(values)"
-        obs.append(Ob("F-enumeration", key, du.relpath, m.node.lineno, m.qualname, ok, msg))
+            emit(key, du.relpath, m.node.lineno, m.qualname, False, f"DiscreteUniform.{mname} does not use the value list shared by support, sampler and moments")
     # --- Bernoulli support {0,1}
     be = repo.cls("Bernoulli", "program/distribution/bernoulli.py")
     m = be.methods.get("get_support")
     rs = return_exprs(m.node) if m else []
     vals = set()
-    if len(rs) == 1 and isinstance(rs[0], ast.Set):
+    recognised = len(rs) == 1 and isinstance(rs[0], ast.Set)
+    if recognised:
         for e in rs[0].elts:
             if isinstance(e, ast.Call) and call_name(e) in ("Zero", "One") and not e.args:
                 vals.add(call_name(e))
-            elif isinstance(e, ast.Call) and call_name(e) == "sympify" and isinstance(e.args[0], ast.Constant):
-                vals.add({0: "Zero", 1: "One"}.get(e.args[0].value, "?"))
+            elif isinstance(e, ast.Call) and call_name(e) in ("sympify", "Integer") and e.args and isinstance(e.args[0], ast.Constant):
+                vals.add({0: "Zero", 1: "One"}.get(e.args[0].value, str(e.args[0].value)))
             elif isinstance(e, ast.Constant):
-                vals.add({0: "Zero", 1: "One"}.get(e.value, "?"))
+                vals.add({0: "Zero", 1: "One"}.get(e.value, str(e.value)))
             else:
-                vals.add("?")
-    obs.append(Ob("F-enumeration", f"{be.relpath}::Bernoulli.get_support::enumeration", be.relpath, m.node.lineno if m else 0, "Bernoulli.get_support",
-                  vals == {"Zero", "One"}, "support is {0, 1}" if vals == {"Zero", "One"} else f"support is {sorted(vals)}"))
+                recognised = False
+    emit(f"{be.relpath}::Bernoulli.get_support::enumeration", be.relpath, m.node.lineno if m else 0, "Bernoulli.get_support",
+         (vals == {"Zero", "One"}) if recognised else None, "support is {0, 1}" if vals == {"Zero", "One"} else (f"support is {sorted(vals)}" if recognised else "support expression not recognised"))
     # --- PolyAssignment.evaluate_right_side draws a branch polynomial weighted by its probability
     pa = repo.cls("PolyAssignment", "program/assignment/poly_assignment.py")
     m = pa.methods.get("evaluate_right_side")
@@ -377,19 +428,27 @@ def rule_enumeration(repo: Repo) -> List[Ob]:
     selfn = m.params()[0]
     defs = Defs(m.node, selfn)
     ch = [c for c in walk_no_nested(m.node) if isinstance(c, ast.Call) and call_name(c) == "choices"]
-    ok = False
-    msg = "no random.choices call"
+    verdict, msg = None, "random.choices call not recognised"
     if len(ch) == 1 and ch[0].args:
         c = ch[0]
         kw = {k.arg: k.value for k in c.keywords}
         w = kw.get("weights", c.args[1] if len(c.args) > 1 else None)
+        P, W = f"{selfn}.polynomials", f"{selfn}.probabilities"
         pr = _list_sources(m.node, c.args[0], defs, selfn)
         wr = _list_sources(m.node, w, defs, selfn) if w is not None else set()
-        ok = (f"{selfn}.polynomials" in pr and f"{selfn}.probabilities" not in pr and f"{selfn}.probabilities" in wr
-              and f"{selfn}.polynomials" not in wr and isinstance(parent(c), ast.Subscript))
-        msg = "simulated choice draws from polynomials weighted by probabilities (same order)" if ok else \
-            f"population derives from {sorted(x for x in pr if x.startswith(selfn))}, weights from {sorted(x for x in wr if x.startswith(selfn))}"
-    obs.append(Ob("F-enumeration", f"{pa.relpath}::PolyAssignment.evaluate_right_side::choice", pa.relpath, m.node.lineno, m.qualname, ok, msg))
+        dedup = any(isinstance(x, ast.Call) and call_name(x) in ("keys", "values", "items") for x in ast.walk(c.args[0])) or \
+            any(isinstance(x, ast.Call) and isinstance(x.func, ast.Name) and x.func.id in ("set", "frozenset", "dict") for x in ast.walk(c.args[0]))
+        if dedup:
+            verdict, msg = False, f"population `{src(c.args[0])[:50]}` goes through a de-duplicating container: branches with equal values lose probability mass"
+        elif w is None:
+            verdict, msg = False, "random.choices without weights: branches are drawn uniformly, not with their probabilities"
+        elif P in pr and W not in pr and W in wr and P not in wr:
+            verdict, msg = True, "simulated choice draws from polynomials weighted by probabilities (same order)"
+        elif (W in pr and P not in pr) or (P in wr and W not in wr):
+            verdict, msg = False, f"population derives from {sorted(pr)}, weights from {sorted(wr)}: values and probabilities are swapped"
+        else:
+            verdict, msg = None, f"population derives from {sorted(pr)}, weights from {sorted(wr)}"
+    emit(f"{pa.relpath}::PolyAssignment.evaluate_right_side::choice", pa.relpath, m.node.lineno, m.qualname, verdict, msg)
     return obs
 
 
@@ -419,6 +478,8 @@ def _list_sources(fn_node, e, defs: Defs, selfn: str) -> Set[str]:
                     out |= {r for r in defs.roots(cur.iter) if r.startswith(selfn + ".")}
                 else:
                     out.add("?")
+        if not out:
+            out = {r for r in defs.roots(e) if r.startswith(selfn + ".")}
         return out
     return {r for r in defs.roots(e) if r.startswith(selfn + ".")}
 
